@@ -1026,7 +1026,17 @@ func (c *Conn) nextLocalSequenceNumber(epoch uint16) (uint64, error) {
 	for len(common.LocalSequenceNumber) <= int(epoch) {
 		common.LocalSequenceNumber = append(common.LocalSequenceNumber, uint64(0))
 	}
-	seq := atomic.AddUint64(&common.LocalSequenceNumber[epoch], 1) - 1
+	// The counter stops at the first value past the last usable number: it is
+	// never incremented beyond it, so it cannot come round to 0 again whatever
+	// value it was restored with.
+	var seq uint64
+	for {
+		seq = atomic.LoadUint64(&common.LocalSequenceNumber[epoch])
+		if seq > recordlayer.MaxSequenceNumber ||
+			atomic.CompareAndSwapUint64(&common.LocalSequenceNumber[epoch], seq, seq+1) {
+			break
+		}
+	}
 	if vtrace.Enabled {
 		vtrace.Emit(c.handshakeConfig, "seq.alloc", "client", common.IsClient, "epoch", int(epoch), "seq", seq,
 			"ok", seq <= recordlayer.MaxSequenceNumber)
